@@ -35,14 +35,22 @@ OutcomesP(pairs, r) == IF pairs = <<>> THEN {"O"} ELSE {IF Fits(pairs[j][1], r) 
 -----------------------------------------------------------------------------
 (* Named deviations of the unchanged tree                                    *)
 
-\* Dev_AccumulationOrder (residue after fix b4c84ea): for dates before the epoch the parser counts the time of day backwards
-\* from the next midnight, i.e. with negative partial sums; an UNSIGNED representation rejects them although the value
-\* itself (a pre-epoch instant whose fraction rounds up to the epoch) is representable.
-\* Guard: unsigned representation and negative day number.  Signed targets: any rejection of a representable instant is
-\* a plain violation.
-AccOrderGuard(c, secs, u, r) == ~RepSigned(r) /\ Lt(DivModSmall(secs, 86400).q, Zero)
-Dev_AccumulationOrder(pairs, secs, u, r, obs) ==
-  obs = "O" /\ \E j \in 1..Len(pairs) : Fits(pairs[j][1], r) /\ AccOrderGuard(pairs[j][1], secs, u, r)
+\* Dev_AccumulationOrder (residue after fix b4c84ea).  The parser forms  s1 = time of day,  s2 = s1 + fraction,
+\* s3 = s2 + whole days, where for dates before the epoch the time of day is counted backwards from the next midnight
+\* (time - 86400 s, days + 1) as soon as a time of day or a fraction is present.  Every partial sum is range checked in
+\* the target representation, so a representable instant is still rejected when s1 or s2 does not fit although s3 does:
+\* unsigned representations (negative partial sums) and 8-bit sub-second / second targets (-128 ms = -1 s + 872 ms).
+\* Guard: exactly that - the instant fits r, and s1 or s2 computed in this order does not.  A different order of the
+\* three additions, or a rejection with fitting partial sums, is a plain violation.
+AccOrderGuard(c, secs, hasFr, u, r) ==
+  LET dm == DivModSmall(secs, 86400)
+      back == Lt(dm.q, Zero) /\ (dm.r # 0 \/ hasFr)
+      timeSecs == IF back THEN dm.r - 86400 ELSE dm.r
+      s1 == IF SubSecond(u) THEN ShiftDec(FromInt(timeSecs), FracDigits(u)) ELSE DivModSmall(FromInt(timeSecs), UnitSeconds(u)).q
+      s2 == Sub(c, MulChain(IF back THEN AddSmall(dm.q, 1) ELSE dm.q, TicksPerDay(u)))
+  IN ~Fits(s1, r) \/ ~Fits(s2, r)
+Dev_AccumulationOrder(pairs, secs, hasFr, u, r, obs) ==
+  obs = "O" /\ \E j \in 1..Len(pairs) : Fits(pairs[j][1], r) /\ AccOrderGuard(pairs[j][1], secs, hasFr, u, r)
 
 \* Dev_FractionCastWraps: the fraction is rounded with std::chrono::round<target duration>, i.e. cast to the target
 \* representation before any range check; a fraction that alone exceeds the representation (int8 sub-second targets)
@@ -67,7 +75,7 @@ AsMarch1(p) == [p EXCEPT !.mo = <<0, 3>>, !.dd = <<0, 1>>]
 LibraryOutcomeDt(q, u, r, obs) ==
   LET secs == DtSeconds(q)
       pairs == SetToSeq({<<c, "V:" \o ToDec(c)>> : c \in UnitCands(secs, q.fr, FALSE, u)})
-  IN obs \in OutcomesP(pairs, r) \/ Dev_AccumulationOrder(pairs, secs, u, r, obs) \/ Dev_FractionCastWraps(q.fr, FALSE, u, r, obs)
+  IN obs \in OutcomesP(pairs, r) \/ Dev_AccumulationOrder(pairs, secs, q.fr # <<>>, u, r, obs) \/ Dev_FractionCastWraps(q.fr, FALSE, u, r, obs)
      \/ Dev_DaysFromCivilEdge(pairs, secs, r, obs)
 Dev_Feb29CommonYear(p, u, r, obs) == Feb29Case(p) /\ LibraryOutcomeDt(AsMarch1(p), u, r, obs)
 Dev_Feb29CommonYearTm(p, obs) == Feb29Case(p) /\ obs = TmOutcome(p)
@@ -147,7 +155,7 @@ DtVerdicts(e) ==
                             ELSE IF p.strict THEN OutcomesP(pairs, r) ELSE OutcomesP(pairs, r) \cup {"I"}
              IN IF obs \in allowed THEN <<>>
                 ELSE <<Fail(i, "dt", "outcome",
-                            IF valid /\ Dev_AccumulationOrder(pairs, secs, u, r, obs) THEN "Dev_AccumulationOrder"
+                            IF valid /\ Dev_AccumulationOrder(pairs, secs, p.fr # <<>>, u, r, obs) THEN "Dev_AccumulationOrder"
                             ELSE IF valid /\ Dev_FractionCastWraps(p.fr, FALSE, u, r, obs) THEN "Dev_FractionCastWraps"
                             ELSE IF valid /\ Dev_DaysFromCivilEdge(pairs, secs, r, obs) THEN "Dev_DaysFromCivilEdge"
                             ELSE IF Dev_Feb29CommonYear(p, u, r, obs) THEN "Dev_Feb29CommonYear"
